@@ -8,6 +8,7 @@
 From Coq Require Import ZArith List Bool Reals. Import ListNotations.
 From PV Require Import Num NumR model.Geom proofs.LatticeFacts proofs.SiteFacts proofs.OverlapFacts proofs.PackingFacts proofs.LJFacts proofs.RedescribeFacts proofs.LatticeSumFacts proofs.OriginShift.
 From PV Require Import gen.GenFns model.Iter model.Pipeline proofs.ListLemmas proofs.SrcShapes proofs.SrcState.
+From PV Require Import proofs.SourceHeadlines.
 
 Theorem C03_lj_sum_formula :
   forall st : ljstateR, lj_sum NumR rpowi st = (incell_sum st + / 2 * image_sum st)%R.
@@ -183,4 +184,17 @@ Theorem C03_state_source_translated :
     translated_gen_lj_score = true /\ translated_gen_lj_final = true.
 Proof. exact state_source_translated. Qed.
 Print Assumptions C03_state_source_translated.
+
+
+Theorem C03_source_lj_score_formula :
+  forall st : ljstateR, gen_lj_score NumR rpowi st = Some (- (incell_sum st + / 2 * image_sum
+    st) / INR (lj_copies st))%R.
+Proof. exact source_lj_score_formula. Qed.
+Print Assumptions C03_source_lj_score_formula.
+
+Theorem C03_source_lj_score_is_infinite_lattice_sum :
+  forall (st : ljstateR) (X rho : R), lj_wf st X rho -> forall k : Z, (3 <= k)%Z -> gen_lj_score
+    NumR rpowi st = Some (- (incell_sum st + / 2 * image_sum_k st k) / INR (lj_copies st))%R.
+Proof. exact source_lj_score_is_infinite_lattice_sum. Qed.
+Print Assumptions C03_source_lj_score_is_infinite_lattice_sum.
 
